@@ -266,6 +266,8 @@ type job struct {
 	ok    *okCase
 	name  string
 	host  string
+	// unroutable: a server name the gateway cannot map to a tunnel at all (no dial error class is involved)
+	unroutable bool
 	rep   int
 }
 
@@ -327,6 +329,16 @@ func main() {
 				}
 			}
 		}
+		// names the gateway cannot forward: not under a root domain, a single label (an IP literal cannot
+		// be sent as a TLS server name at all: such a connection carries no name and is not a tunnel request)
+		for rep := 0; rep < reps; rep++ {
+			for _, p := range []string{"tcp-yamux", "tcp-quic", "connect"} {
+				for _, h := range []string{fmt.Sprintf("custom%d.com", rep), "localhost", fmt.Sprintf("single%d", rep), fmt.Sprintf("deep.er.custom%d.org", rep)} {
+					id++
+					jobs = append(jobs, job{proto: p, name: h, host: h, rep: rep, unroutable: true})
+				}
+			}
+		}
 		// the table is fixed; the seed only permutes the order in which the 8 workers run it
 		r.Rand(fmt.Sprint("order", ci)).Shuffle(len(jobs), func(a, b int) { jobs[a], jobs[b] = jobs[b], jobs[a] })
 		results := make([]obs, len(jobs))
@@ -365,6 +377,33 @@ func judge(r *ev.Run, w *world, j job, o obs, err error) {
 	isHTTP := j.proto == "h1" || j.proto == "h2" || j.proto == "h3"
 	isTCP := j.proto == "tcp-yamux" || j.proto == "tcp-quic"
 	var cls, wrap string
+	if j.unroutable {
+		// whatever stops the forwarding (the name check, or a dial for a name nobody registered):
+		// the raw TCP / CONNECT caller is told so before the stream ends
+		kind := "not-under-a-root-domain"
+		switch {
+		case !strings.Contains(j.host, "."):
+			kind = "single-label"
+		case j.host[0] >= '0' && j.host[0] <= '9':
+			kind = "ip-literal"
+		}
+		caseName := fmt.Sprintf("%s/unroutable-name/%s", j.proto, kind)
+		if err != nil {
+			r.Inconclusive(fmt.Sprintf("%s: transport problem (not judged): %v", caseName, err))
+			return
+		}
+		r.Case(caseName)
+		wit := map[string]any{"proto": j.proto, "host": j.host, "dial_calls": dials, "status_frame": o.gotStatus, "status": o.status.String(), "stream_ended_with": o.readErr, "http_status": o.httpStatus}
+		switch {
+		case isTCP && !o.gotStatus:
+			r.Violation("tcp-no-status-before-close:unroutable-name:"+j.proto, caseName, fmt.Sprintf("%s: server name %q cannot be forwarded; the stream ended (%s) before any status frame", caseName, j.host, o.readErr), wit)
+		case isTCP && o.status == protocol.TunnelStatusCode_STATUS_OK:
+			r.Violation("tcp-success-without-client:unroutable-name", caseName, fmt.Sprintf("%s: server name %q: the caller received STATUS_OK although no client connection exists", caseName, j.host), wit)
+		case !isTCP && o.httpStatus < 400:
+			r.Violation("connect-no-failure-status:unroutable-name", caseName, fmt.Sprintf("%s: CONNECT %q answered %d, not a failure status", caseName, j.host, o.httpStatus), wit)
+		}
+		return
+	}
 	if j.ec != nil {
 		cls, wrap = j.ec.class, j.ec.wrap
 	} else {
